@@ -224,7 +224,13 @@ func (c *diskCache) containsWorker() {
 			}
 		}
 
-		ok, _ = c.proxy.Contains(req.ctx, cache.CAS, (*req.digest).Hash, (*req.digest).SizeBytes)
+		var foundSize int64
+		ok, foundSize = c.proxy.Contains(req.ctx, cache.CAS, (*req.digest).Hash, (*req.digest).SizeBytes)
+		if ok && isSizeMismatch((*req.digest).SizeBytes, foundSize) {
+			// Same test as in Contains: the backend has a blob with this
+			// hash, but not of the size that this digest states.
+			ok = false
+		}
 		if ok {
 			c.accessLogger.Printf("GRPC CAS HEAD %s OK", (*req.digest).Hash)
 			// The blob exists on the proxy, remove it from the
